@@ -209,6 +209,9 @@ def explorer_cells(tier):
     # application code that waits in pool.until_closed() next to a session doing the same, and gives up (is cancelled)
     cell("until-closed | app waits in until_closed() and is cancelled | closer", tasks=1, closer=True, app_waiter=True,
          sessions=[["until-closed", "num-running"], ["until-closed"]])
+    # a group spawned and cancelled back to back (both lines in the session's buffer at once), then flush from both sessions
+    cell("apply+cancel-group pipelined, then flush | flush", tasks=0, burst=[0, 2],
+         sessions=[["apply " + VW + "work --group-name foo", "cancel-group foo", "flush", "num-running"], ["flush", "-h"]])
     # a close attempt that was answered with a task's exception, then further attempts (same and other session)
     cell("gac failing t1, gac -r, num-running", tasks=1, fail=[0], sessions=[["gather-and-close", "gather-and-close -r", "num-running"]])
     cell("gac failing t1 | gac -r", tasks=1, fail=[0], sessions=[["gather-and-close", "num-ended"], ["gather-and-close -r", "-h"]])
